@@ -90,6 +90,7 @@ def ensure_facts(verbose=True):
         e['CARGO_TARGET_DIR'] = target
         e['NV_FACTS_DIR'] = fdir
         e['NV_CRATES'] = ','.join(LIB_CRATES)
+        e['NV_WORKSPACE'] = ','.join(LIB_CRATES)
         cmd = ['cargo', '+nightly', 'check', '--offline', '--lib']
         for c in LIB_CRATES:
             cmd += ['-p', c]
